@@ -55,6 +55,7 @@ will be thrown into the *tokens* generator iterator (via .throw()).
 
 import collections.abc as abc
 import re
+from decimal import Decimal
 
 from .collections import MutableMappingSequence, PVLModule, PVLGroup, PVLObject
 from .token import Token
@@ -898,7 +899,7 @@ class ODLParser(PVLParser):
         on numeric values, any others will result in a ValueError.
         """
 
-        if isinstance(value, int) or isinstance(value, float):
+        if isinstance(value, (int, float, Decimal, self.decoder.real_cls)):
             return super().parse_units(value, tokens)
 
         else:
